@@ -13,6 +13,8 @@ import (
 	"sync"
 
 	"github.com/tobgu/qframe"
+	"github.com/tobgu/qframe/aggregation"
+	qcsv "github.com/tobgu/qframe/config/csv"
 	"github.com/tobgu/qframe/config/eval"
 	"github.com/tobgu/qframe/config/groupby"
 	"github.com/tobgu/qframe/types"
@@ -66,7 +68,9 @@ var (
 	c11SharedOrders = []qframe.Order{{Column: "e", Reverse: true, NullLast: true}, {Column: "k"}, {Column: "i", Reverse: true}}
 	c11SharedInstr  = []qframe.Instruction{{Fn: 7, DstCol: "n"}, {Fn: "ToUpper", DstCol: "u", SrcCol1: "s"}, {Fn: types.ColumnName("i"), DstCol: "n2"}}
 	c11SharedExpr   = qframe.Expr("+", qframe.Expr("*", types.ColumnName("i"), 2), types.ColumnName("k"), 1)
-	c11SharedAggs   = []qframe.Aggregation{{Fn: "sum", Column: "i"}, {Fn: "max", Column: "f", As: "mf"}, {Fn: "count", Column: "s", As: "n"}}
+	// (one function value made by aggregation.StrJoin used by all calls)
+	c11SharedAggs = []qframe.Aggregation{{Fn: "sum", Column: "i"}, {Fn: "max", Column: "f", As: "mf"}, {Fn: "count", Column: "s", As: "n"},
+		{Fn: aggregation.StrJoin("+"), Column: "s", As: "js"}, {Fn: aggregation.StrJoin("+"), Column: "e", As: "je"}}
 )
 
 // c11Prime runs the error paths once on the frame (misuse that must yield Err): whatever such a
@@ -243,6 +247,15 @@ func c11Ops() []concOp {
 		{"WithRowNums", false, func(q qframe.QFrame, y func()) string { return digestFrame(q.WithRowNums("rn")) }},
 		{"ToCSV", false, func(q qframe.QFrame, y func()) string { var b bytes.Buffer; _ = q.ToCSV(&b); return b.String() }},
 		{"ToJSON", false, func(q qframe.QFrame, y func()) string { var b bytes.Buffer; _ = q.ToJSON(&b); return b.String() }},
+		{"ToCSV(Columns reversed, no header)", false, func(q qframe.QFrame, y func()) string {
+			names := q.ColumnNames()
+			for i, j := 0, len(names)-1; i < j; i, j = i+1, j-1 {
+				names[i], names[j] = names[j], names[i]
+			}
+			var b bytes.Buffer
+			_ = q.ToCSV(&b, qcsv.Columns(names), qcsv.Header(false))
+			return b.String() + fmt.Sprint(q.ColumnNames())
+		}},
 		// argument values shared between the calls (clauses, orders, instructions, aggregations and
 		// expressions are plain values a program builds once and uses from many goroutines)
 		{"Filter(shared Or(And,leaf,Not,leaf))", false, func(q qframe.QFrame, y func()) string {
@@ -748,8 +761,8 @@ func init() {
 		},
 		Level: "model_checking",
 		Rule: "(a) controlled cooperative scheduler: logical threads each run one operation on the same frame or on a frame sharing storage with it (slice, sorted copy, column copy); scheduling points are operation start, operation end and EVERY user callback invocation (filter predicate, apply fn0/fn1/fn2, aggregation function, eval function; the callback yields before it reads its arguments). " +
-			"All interleavings (no preemption bound) for every unordered pair and self-pair of 13 callback-bearing operations x 5 sharing relations (same frame, slice, sorted copy, column copy, both on one frame that was itself derived by adding columns) and for each callback operation against each of 30 callback-free operations; three threads with preemption bound 2 (thorough 3). Oracle: every operation returns what it returns alone, the shared frame is unchanged, no panic; replay of a choice prefix must find the recorded number of enabled threads. states = schedules executed, transitions = scheduling points. " +
-			"(b) free-running pass in a -race build: every unordered pair and self-pair of all 43 operations (five of them using argument values shared between the calls, two on a shared 40000-row frame) x 5 relations released together by a barrier, one fresh process per pair (relations in rotated order, no sequential run before the racing one: process-wide and per-frame lazily built state is cold), 3 (10) repetitions, results compared with the sequential ones computed afterwards on equal frames; a race report is attributed by stderr markers and re-run 5 times in fresh processes before it is believed. Non-trivial = distinct (operation tuple, relation) explored by the scheduler.",
+			"All interleavings (no preemption bound) for every unordered pair and self-pair of 13 callback-bearing operations x 5 sharing relations (same frame, slice, sorted copy, column copy, both on one frame that was itself derived by adding columns) and for each callback operation against each of 31 callback-free operations; three threads with preemption bound 2 (thorough 3). Oracle: every operation returns what it returns alone, the shared frame is unchanged, no panic; replay of a choice prefix must find the recorded number of enabled threads. states = schedules executed, transitions = scheduling points. " +
+			"(b) free-running pass in a -race build: every unordered pair and self-pair of all 44 operations (five of them using argument values shared between the calls, two on a shared 40000-row frame) x 5 relations released together by a barrier, one fresh process per pair (relations in rotated order, no sequential run before the racing one: process-wide and per-frame lazily built state is cold), 3 (10) repetitions, results compared with the sequential ones computed afterwards on equal frames; a race report is attributed by stderr markers and re-run 5 times in fresh processes before it is believed. Non-trivial = distinct (operation tuple, relation) explored by the scheduler.",
 		Assumptions: []string{
 			"qframe contains no synchronisation operation, so the scheduler can only regain control at operation boundaries and user callbacks; memory-access-level interleavings are covered by the race pass: two synchronisation-free operations forked from a barrier have no happens-before path between them in any schedule, so the Go race detector reports a conflicting access pair whichever schedule runs (limits: shadow memory keeps 4 accesses per word)",
 			"a data-race-free program is sequentially consistent (Go memory model); with no operation writing memory another reads, each returns its sequential result",
